@@ -547,7 +547,9 @@ def check(ctx):
     okro = len(ro) == 2
     for n in ro:
         want_ro = fact_key('metadata & 64 != 0', True) in g2.fact_keys_at(n)
-        okro = okro and norm(n.ast.value) == ('ParamTocElement.RO_ACCESS' if want_ro else 'ParamTocElement.RW_ACCESS')
+        v_ = n.ast.value                                       # the class constant by value, however the class is named at the site
+        cname = v_.attr if isinstance(v_, ast.Attribute) and isinstance(v_.value, ast.Name) and v_.value.id in ('self', 'ParamTocElement', 'cls') else None
+        okro = okro and cname == ('RO_ACCESS' if want_ro else 'RW_ACCESS')
     ctx.inst('R6', init, 'param-readonly-bit', okro, 'access = RO iff bit 6 set')
     def _thru(st_):
         n_ = g2.node_of(st_.value)
